@@ -57,9 +57,12 @@ impl SymStream {
     }
     fn push_msg(&mut self, prefix: &str, body: &[String], suffix: &str) {
         // "p" may be cut in the middle as well: it is two symbols p1 p2 in the case description
-        let (a, b) = prefix.split_at(prefix.len() / 2);
-        self.parts.push(a.as_bytes().to_vec());
-        self.parts.push(b.as_bytes().to_vec());
+        // five symbols: 1st byte, bytes 2-3, bytes 4-5, and the two halves of the rest
+        let bytes = prefix.as_bytes();
+        let mid = 5 + (bytes.len() - 5) / 2;
+        for (a, b) in [(0, 1), (1, 3), (3, 5), (5, mid), (mid, bytes.len())] {
+            self.parts.push(bytes[a..b].to_vec());
+        }
         for s in body {
             self.parts.push(sym_bytes(s));
         }
